@@ -276,19 +276,19 @@ def partitions(tier, seed):
     for mode in (0, 1):
         parts.append(Part('step_encode_mode%d' % mode, [('n', 'int'), ('k', 'str'), ('s', 'str'), ('b', 'bool')],
                           ['-2**70 <= n <= 2**70', 'len(k) == 1', 'k <= "\\x7f"', 's == "x"'], STEP_ENCODE % {'mode': mode}, PRE,
-                          280 if q else 900, family='step_lemma',
+                          280 if q else 480, family='step_lemma',
                           bound='encode_table_value / field_table on a nested value with an unbounded integer, switch %s'
                                 % ('on' if mode else 'off'),
                           rep={'n': 40000, 'k': 'k', 's': 'x', 'b': True}))
     for n in ((8, 12) if q else (8, 12, 14)):
         parts.append(Part('step_decode_%d' % n, [('data', 'bytes')],
                           ['len(data) == %d' % n], STEP_DECODE % {'n': n}, PRE,
-                          280 if q else 900, family='step_lemma',
+                          280 if q else 480, family='step_lemma',
                           bound='frame.unmarshal twice on arbitrary %d bytes (valid and failing decodes)' % n,
                           rep={'data': {'__bytes__': ('0100010000000400' + '0a000bce' * 2)[:2 * n]}}))
     parts.append(Part('step_nested_failures', [('tag', 'int'), ('v0', 'int'), ('v1', 'int')],
                       ['0 <= tag <= 255', '0 <= v0 <= 255', '0 <= v1 <= 255'], STEP_NESTED, PRE,
-                      280 if q else 900, family='step_lemma',
+                      280 if q else 480, family='step_lemma',
                       bound='repeated (mostly failing) decodes of table > array > table > value with an arbitrary '
                             'type tag and two arbitrary value bytes, then a valid nested decode',
                       rep={'tag': 90, 'v0': 0, 'v1': 0}))
@@ -298,14 +298,14 @@ def partitions(tier, seed):
         parts.append(Part('step_frames_%d' % i, [('ch', 'int'), ('tag', 'int'), ('flag', 'bool')],
                           ['0 <= ch <= 65535', '0 <= tag < 2**32'],
                           STEP_FRAMES.replace('%%', '%'), PRE + '\nCLASSES = [%s]\n' % ', '.join(ch_),
-                          280 if q else 900, family='step_lemma',
+                          280 if q else 480, family='step_lemma',
                           bound='construct with defaults / marshal / unmarshal twice for %d classes; sharing and '
                                 'poisoning of default containers; content headers' % len(ch_),
                           rep={'ch': 1, 'tag': 7, 'flag': True}))
     for i, (lo, hi) in enumerate(((2 ** 15, 2 ** 16), (2 ** 31, 2 ** 32), (-129, 128))):
         parts.append(Part('history_%d' % i, [('n', 'int'), ('k', 'str')],
                           ['%d <= n < %d' % (lo, hi), 'len(k) == 1', 'k <= "\\x7f"'], HISTORY, PRE,
-                          280 if q else 900, family='history',
+                          280 if q else 480, family='history',
                           bound='13 encode/marshal calls interleaved with toggles and failing decodes, n in [%d, %d)' % (lo, hi),
                           rep={'n': lo, 'k': 'k'}))
     parts.append(Part('twin_snapshot', [('flag', 'bool')], [],
